@@ -49,4 +49,24 @@ impl Operator {
     pub fn is_multiply_or_divide(&self) -> bool {
         matches!(self, Self::Multiply | Self::Divide)
     }
+
+    /// The precedence of the operator; a higher number binds tighter.
+    ///
+    /// `*` and `/`, then `MOD`, then `+` and `-`, then the relational
+    /// operators, then (the unary) `NOT`, then `AND`, then `OR`.
+    pub fn precedence(&self) -> u8 {
+        match self {
+            Self::Multiply | Self::Divide => 6,
+            Self::Modulo => 5,
+            Self::Plus | Self::Minus => 4,
+            Self::Less
+            | Self::LessOrEqual
+            | Self::Equal
+            | Self::GreaterOrEqual
+            | Self::Greater
+            | Self::NotEqual => 3,
+            Self::And => 1,
+            Self::Or => 0,
+        }
+    }
 }
